@@ -181,6 +181,12 @@ def check_weaver(ctx, wm: WeaverModel):
     # (a) omitted bounds: the whole series, no raise
     mf0 = evaluate({'start': Const(None), 'stop': Const(None)})
     w0 = window(mf0)
+    carried = [t for t in walk_vals(mf0.result) if isinstance(t, Term) and t.head in ('loopvar', 'loopstate') ] if mf0.result is not None else []
+    if carried:
+        # the bounds are found by a search loop with loop-carried state (first match, early exit): not one of the lookup idioms this rule compares
+        ctx.unknown('C11.4', 'slice_by_value: lookup of the bounds', f"the window depends on loop-carried state ({show(carried[0], 60)}): search idiom not recognised",
+                    mf0.fi.loc(), mf0.fi.qualname, 'sbv:idiom')
+        return
     ctx.check(w0 is not None and w0[0] == C(0) and w0[1] == wm.Lw, 'C11.4', 'slice_by_value (both bounds omitted) returns the whole series x[0:len], y[0:len]',
               f"code: {show(mf0.result, 300)}", mf0.fi.loc(), mf0.fi.qualname, 'sbv:omitted')
     bad = [e for e in mf0.raises if not _bounds_guard(e, wm)]
